@@ -241,8 +241,8 @@ package fontscan
 //
 //@ func FontMap.AddFont C14
 //@   mode int
-//@   ensures [invalidates] implies(err == nil, !fm.built)
-//@   ensures [cache-cleared] implies(err == nil, len(fm.lru.m) == 0)
+//@   ensures [invalidates] implies(result == nil, !fm.built)
+//@   ensures [cache-cleared] implies(result == nil, len(fm.lru.m) == 0)
 //@   modifies unspecified
 //
 //@ func FontMap.UseSystemFonts C14
